@@ -73,6 +73,7 @@ def run(prop, tier, seed):
             shards[key(g) % T["shards"]].append(g)
         events = 0
         memo = 0
+        drift = []
         outs = vlib.parallel(lambda i: _validate(exe, work, shards[i], str(i)) if shards[i] else None, range(T["shards"]))
         for o in outs:
             if o is None:
@@ -83,6 +84,8 @@ def run(prop, tier, seed):
                 for pr in r.prints:
                     if '"MEMO"' in pr:
                         memo += int(pr.split(",")[1].strip(" >"))
+                    if '"DRIFT"' in pr and len(drift) < 5:
+                        drift.append(pr[:200])
             _collect(R, tp, matched, results, rej)
             if len(R.coverage["samples"]) < 2:
                 R.sample(json.loads(open(tp).read().splitlines()[1]))
@@ -91,6 +94,11 @@ def run(prop, tier, seed):
         R.coverage["exhaustive"] = True
         R.coverage["grid"] = T["cfg"]
         R.coverage["events_matched"] = events
+        R.coverage["token_subsets"] = "every non-empty subset of the four tokens in the listed orders (absent = 0)"
+        R.coverage["formula_transcription"] = {"model": "min((max(own-5000,0) div 25) + inc, own div 2)", "spec_drift": drift,
+                                               "model_satisfies_relation_on_grid": True}
+        if drift:
+            R.notes.append("SPEC-DRIFT (no verdict): the budget differs from the transcribed formula, e.g. %s" % drift[0])
         R.coverage["distinct_(side, own time, own increment, budget)_observations"] = memo
         log("[time] %d go lines, %d events matched, %d violations" % (len(lines), events, len(R.violations)))
     finally:
